@@ -33,6 +33,8 @@ structure ObsDrv where
   subLock : List FSt := []
   futs : List AFut := []
   guards : List Nat := []
+  /-- per subscriber: identity of the waker stored in its reusable lock future (who polled it last) -/
+  lockWk : List (Nat × Nat) := []
 
 def ObsDrv.aw (d : ObsDrv) : AWorld := { w := d.w, sem := d.sem, subLock := d.subLock, futs := d.futs, guards := d.guards }
 def ObsDrv.ofAw (d : ObsDrv) (a : AWorld) : ObsDrv :=
@@ -42,6 +44,21 @@ def showGrants (wk : List AOwner) : String :=
   let fs := wk.filterMap fun o => match o with | .fut k => some k | _ => none
   if fs.isEmpty then "" else " wokef=" ++ showList (dedupSorted fs)
 def grantSubs (wk : List AOwner) : List Nat := wk.filterMap fun o => match o with | .sub i => some i | _ => none
+
+def ObsDrv.lockWaker (d : ObsDrv) (i : Nat) : Nat := ((d.lockWk.find? (·.1 == i)).map (·.2)).getD i
+def ObsDrv.setLockWaker (d : ObsDrv) (i id : Nat) : ObsDrv := { d with lockWk := (i, id) :: d.lockWk.filter (·.1 != i) }
+
+/-- all waker identities woken by a step: the wakers of the version wait list plus the wakers stored in the
+    lock futures that were granted the lock -/
+def ObsDrv.wakeIds (d : ObsDrv) (wk : List Nat) (lw : List AOwner) : List Nat :=
+  wk ++ lw.map fun o => match o with | .sub i => d.lockWaker i | .fut k => futWaker k
+
+/-- canonical display: subscriber wakers (stream polls) that still exist, then wakers of futures that are still pending -/
+def showWakes (a : AWorld) (ids : List Nat) (subsAlways : Bool := true) : String :=
+  let ss := dedupSorted ((ids.filter (· < 1000)).filter a.w.subAlive)
+  let fs := dedupSorted (((ids.filter (· ≥ 1000)).map (· - 1000)).filter fun k =>
+    match a.futs[k]? with | some f => f.st != .done | none => false)
+  (if subsAlways then " woke=" ++ showList ss else "") ++ (if fs.isEmpty then "" else " wokef=" ++ showList fs)
 
 def parseWOp : List String → Option (WOp Nat)
   | ["set", v] => v.toNat?.map .set
@@ -73,19 +90,36 @@ def obsStep (d : ObsDrv) (toks : List String) : Option (ObsDrv × String) :=
       match d.futs[k]? with
       | none => bad
       | some f =>
+        match f.kind with
+        | .nextRef i =>
+          let d := if f.st = .idle then d.setLockWaker i (futWaker k) else d
+          match d.aw.pollNextRef eqvT hashT k with
+          | some (a, r, lw) => some (d.ofAw a, r.getD ("Pending(" ++ toString k ++ ")") ++ showWakes a (d.wakeIds [] lw))
+          | none => bad
+        | _ =>
         if f.st = .queued then some (d, "Pending(" ++ toString k ++ ")")
         else
           match d.aw.finishFut eqvT hashT k with
-          | some (a, r, lw, wk) => some (d.ofAw a, r ++ showWokeO a.w (wk ++ grantSubs lw) ++ showGrants lw)
+          | some (a, r, lw, wk) => some (d.ofAw a, r ++ showWakes a (d.wakeIds wk lw))
           | none => bad
   | ["afdrop", k] =>
     match k.toNat?.bind d.aw.dropFut with
-    | some (a, lw) => some (d.ofAw a, "ok" ++ showWokeO a.w (grantSubs lw) ++ showGrants lw)
+    | some (a, lw) => some (d.ofAw a, "ok" ++ showWakes a (d.wakeIds [] lw))
     | none => bad
   | ["agdrop", g] =>
     match g.toNat?.bind d.aw.dropGuard with
-    | some (a, lw) => some (d.ofAw a, "ok" ++ showWokeO a.w (grantSubs lw) ++ showGrants lw)
+    | some (a, lw) => some (d.ofAw a, "ok" ++ showWakes a (d.wakeIds [] lw))
     | none => bad
+  | ["anext", i] =>
+    match i.toNat? with
+    | none => bad
+    | some i =>
+      if !w.subAlive i then bad else
+      let (a0, k) := d.aw.newNextRef i
+      let d := d.setLockWaker i (futWaker k)
+      match a0.pollNextRef eqvT hashT k with
+      | some (a, r, lw) => some (d.ofAw a, r.getD ("Pending(" ++ toString k ++ ")") ++ showWakes a (d.wakeIds [] lw))
+      | none => bad
   | ["atryr", _] => some (d, if d.sem.avail ≥ 1 then "some" else "none")
   | ["atryw", _] => some (d, if d.sem.avail = d.sem.max then "some" else "none")
   | "agset" :: g :: rest =>
@@ -93,7 +127,7 @@ def obsStep (d : ObsDrv) (toks : List String) : Option (ObsDrv × String) :=
     | some g, some op =>
       if d.guards.getD g 0 ≠ d.sem.max then bad else
       match w.write eqvT hashT 0 ((List.range w.clones.length).find? (w.ownerAlive ·) |>.getD 0) op with
-      | some (w', r, wk) => some ({ d with w := w' }, r.show ++ showWokeO w' wk)
+      | some (w', r, wk) => some ({ d with w := w' }, r.show ++ showWakes { d.aw with w := w' } wk)
       | none => bad
     | _, _ => bad
   | kind :: h :: rest =>
@@ -112,21 +146,25 @@ def obsStep (d : ObsDrv) (toks : List String) : Option (ObsDrv × String) :=
         let (a, k, ok) := d.aw.startFut (.write h op)
         if ok then
           match a.finishFut eqvT hashT k with
-          | some (a', r, lw, wk) => some (d.ofAw a', r ++ showWokeO a'.w (wk ++ grantSubs lw) ++ showGrants lw)
+          | some (a', r, lw, wk) => some (d.ofAw a', r ++ showWakes a' (d.wakeIds wk lw))
           | none => bad
         else some (d.ofAw a, "Pending(" ++ toString k ++ ")")
       | _, _ => bad
     else if d.async && kind = "opoll" && rest = [] then
-      match h.toNat?.bind d.aw.pollSub with
-      | some (a, r, lw) => some (d.ofAw a, r.show ++ showGrants lw)
+      match h.toNat? with
       | none => bad
+      | some i =>
+        let d := d.setLockWaker i i
+        match d.aw.pollSub i with
+        | some (a, r, lw) => some (d.ofAw a, r.show ++ showWakes a (d.wakeIds [] lw) false)
+        | none => bad
     else if d.async && kind = "osdrop" && rest = [] then
       match h.toNat? with
       | none => bad
       | some i =>
         let (a, lw) := d.aw.dropSubLock i
         match a.w.subDrop i with
-        | some w' => some ({ d.ofAw a with w := { w' with arcState := w'.arcState - 1 } }, "ok" ++ showGrants lw)
+        | some w' => some ({ d.ofAw a with w := { w' with arcState := w'.arcState - 1 } }, "ok" ++ showWakes a (d.wakeIds [] lw) false)
         | none => bad
     else
     if kind = "w" || kind = "g" then
